@@ -20,7 +20,7 @@ def _default(n: int) -> dict:
     return {"k": "", "raised": False, "exc": "", "problem": "", "rev": False, "ensure": free, "avoid": [], "srcs": [],
             "autosrc": False, "limit": -1, "res": [], "retained": free, "pnvars": [], "pn": [], "pnvars0": [],
             "sp": free, "sp0meet": free, "gvars": [], "gtt": [], "remove": False, "res1": free, "res2": [],
-            "strict": False, "ldoi": [], "drv": [], "frompn": False}
+            "strict": False, "ldoi": [], "drv": [], "frompn": False, "v": 0, "val": 2, "given": False, "names_in": [], "names_out": []}
 
 
 def vec(space: dict, names: list[str]) -> list[int]:
@@ -218,6 +218,48 @@ def record_pure(tid: str, tt: list[list[int]], seed: int, kinds: list[str], per_
                     e["res2"] = sorted(names.index(x) + 1 for x in space_utils.percolation_conflicts(graph, s, e["strict"]))
             emit(e, call)
 
+    if "sanitize" in kinds:
+        pool = ["a_45[x]", "b12{z}", "c[", "c]", "c_", "_c_", "x y", "x-y", "x.y", "TNF\u03b1", "NF\u03baB", "I\u03baB\u03b1", "g\u00e9ne", "x\u00b2",
+                "9lives", "A", "a", "_", "__", "p53", "p53*", "p53'", "v(1)", "v[1]", "v{1}", "v<1>", "q|r", "q&r", "\u0434\u043d\u043a"]
+        for _ in range(max(2, per_kind // 3)):
+            e = _default(n)
+            e["k"] = "sanitize"
+            chosen = rng.sample(pool, n) if rng.random() < 0.8 else [rng.choice(["x[", "x]", "x_", "x{"]) for _ in range(n)]
+            if len(set(chosen)) < n:
+                chosen = rng.sample(pool, n)
+
+            def call(e, chosen=chosen):
+                import copy as _copy
+                net2 = _copy.copy(net)
+                order = list(range(n))
+                rng.shuffle(order)
+                for i in range(n):
+                    net2.set_variable_name(net2.variables()[i], f"tmp_name_{i}")
+                for i in order:
+                    net2.set_variable_name(net2.variables()[i], chosen[i])
+                e["names_in"] = [[ord(ch) for ch in net2.get_variable_name(v)] for v in net2.variables()]
+                out = pnt.sanitize_network_names(net2)
+                e["names_out"] = [[ord(ch) for ch in out.get_variable_name(v)] for v in out.variables()]
+                # dynamics of the result, positionally (variable i of the result is variable i of the input)
+                onames = list(out.variable_names())
+                g = ba.AsynchronousGraph(out)
+                cols = []
+                for i in range(n):
+                    if out.get_update_function(onames[i]) is None:
+                        cols.append([(s_ >> i) & 1 for s_ in range(1 << n)])
+                        continue
+                    fb = g.mk_update_function(onames[i])
+                    col = []
+                    for s_ in range(1 << n):
+                        r = fb.r_restrict({onames[j]: bool((s_ >> j) & 1) for j in range(n)})
+                        col.append(1 if r.is_true() else 0 if r.is_false() else 9)
+                    cols.append(col)
+                e["gtt"] = cols
+                # the sanitized network must be accepted by the solver pipeline
+                pnt.network_to_petrinet(out)
+                trappist_core.trappist(out, problem="min")
+            emit(e, call)
+
     if "ldoi" in kinds:
         e = _default(n)
         e["k"] = "ldoi"
@@ -237,7 +279,179 @@ def record_pure(tid: str, tt: list[list[int]], seed: int, kinds: list[str], per_
                 e["drv"] = [{"v": names.index(v) + 1, "val": int(x)} for (v, x) in sorted(r)]
             emit(e, call)
     inputs = [i + 1 for i, nm in enumerate(names) if net.get_update_function(nm) is None]
-    return {"tid": tid, "net": {"n": n, "f": tt, "inp": inputs}, "events": events}
+    return {"tid": tid, "net": {"n": n, "f": tt, "inp": inputs}, "light": False, "events": events}
+
+
+# ------------------------------------------------------------------------------------------------
+# repository models: per update function, over the support of the function (locality)
+# ------------------------------------------------------------------------------------------------
+def _ast_vars(a, acc):
+    if a[0] == "var":
+        acc.add(a[1])
+    else:
+        for y in a[1:]:
+            if isinstance(y, tuple):
+                _ast_vars(y, acc)
+    return acc
+
+
+def record_model(path: str, seed: int, max_local: int, subspaces: int) -> list[dict]:
+    """
+    One trace per update function of the model (support + the variable itself <= max_local variables):
+      pnvar      the transitions of the variable in network_to_petrinet(model) encode its update function
+      pnvar      the same after restrict_petrinet_to_subspace for random subspaces
+      fnlocal    the update function in percolate_network(model, space) equals the original on the percolated space
+      perclocal  percolate_space fixed / left free this variable correctly given the values fixed around it
+    Returns traces; functions with a larger support are returned as {"skipped": name}.
+    """
+    import biodivine_aeon as ba
+    from biobalm import space_utils, petri_net_translation as pnt
+    devnull = os.open(os.devnull, os.O_WRONLY)
+    os.dup2(devnull, 2)
+    sys.setrecursionlimit(20000)
+    rng = random.Random(seed)
+    text = open(path).read()
+    asts = bn.parse_bnet(text)
+    net = ba.BooleanNetwork.from_bnet(text).infer_valid_graph()   # (as SuccessionDiagram does: tautologies like `x | !x` occur)
+    names = list(net.variable_names())
+    graph = ba.AsynchronousGraph(net)
+    pn = pnt.network_to_petrinet(net)
+    base = os.path.basename(path)
+    # transitions per variable
+    from biobalm.petri_net_translation import place_to_variable
+
+    def trans_of(pnet, var):
+        out = []
+        for t, data in pnet.nodes(data=True):
+            if data.get("kind") == "transition" and data["change"] == var:
+                pre = {}
+                for p_ in pnet.predecessors(t):
+                    v_, pos = place_to_variable(p_)
+                    pre[v_] = 1 if pos else 0
+                out.append((data["direction"] == "up", pre))
+        return out
+
+    # a few random subspaces (some variables fixed) and their percolations / restricted nets / percolated networks
+    spaces = []
+    for _ in range(subspaces):
+        k = rng.randint(1, max(1, min(6, len(names) // 2)))
+        sp = {nm: rng.randint(0, 1) for nm in rng.sample(names, k)}
+        ps = space_utils.percolate_space(graph, sp)
+        rpn = pnt.restrict_petrinet_to_subspace(pn, ps)
+        g = space_utils.percolate_network(net, sp, graph, remove_constants=False)
+        spaces.append((sp, ps, rpn, g))
+    traces = []
+    for v in names:
+        if v not in asts:
+            continue
+        sup = _ast_vars(asts[v], set())
+        local = sorted(sup | {v})
+        if len(local) > max_local:
+            traces.append({"skipped": f"{base}:{v}", "support": len(local)})
+            continue
+        n = len(local)
+        vi = local.index(v) + 1
+        tt_v = [bn.eval_ast(asts[v], {local[j]: (s >> j) & 1 for j in range(n)}) for s in range(1 << n)]
+        f = [[] for _ in range(n)]
+        f[vi - 1] = tt_v
+        events = []
+
+        def cube(pre):
+            out = [2] * n
+            bad = False
+            for nm, val in pre.items():
+                if nm in local:
+                    out[local.index(nm)] = val
+                else:
+                    bad = True
+            return out, bad
+
+        def pn_event(pnet, spvec):
+            e = _default(n)
+            e["k"] = "pnvar"
+            e["v"] = vi
+            e["sp"] = spvec
+            tr_ = []
+            for up, pre in trans_of(pnet, v):
+                c, bad = cube(pre)
+                if bad:
+                    e["raised"] = True
+                    e["exc"] = "transition mentions a variable outside the support"
+                tr_.append({"v": vi, "up": up, "pre": c})
+            e["pn"] = tr_
+            return e
+
+        events.append(pn_event(pn, [2] * n))
+        for (sp, ps, rpn, g) in spaces:
+            psl = [int(ps[nm]) if nm in ps else 2 for nm in local]
+            if v not in ps:
+                events.append(pn_event(rpn, psl))
+                # percolated network: function of v on the percolated space
+                gf = graph_fn_local(g, v, local)
+                if gf is not None:
+                    e = _default(n)
+                    e["k"] = "fnlocal"
+                    e["v"] = vi
+                    e["sp"] = psl
+                    e["gtt"] = [gf]
+                    events.append(e)
+            # percolation locally: the value of v in the percolated space vs constancy of f_v on it
+            e = _default(n)
+            e["k"] = "perclocal"
+            e["v"] = vi
+            given = v in sp
+            others = [psl[j] if j != vi - 1 else 2 for j in range(n)]
+            e["sp"] = others
+            e["val"] = int(ps[v]) if v in ps else 2
+            e["given"] = given
+            events.append(e)
+        for e in events:
+            e.setdefault("v", 0)
+            e.setdefault("val", 2)
+            e.setdefault("given", False)
+        # (short ids: TLC wraps long PrintT lines)
+        traces.append({"tid": f"{base[:3]}:{names.index(v)}", "variable": v, "net": {"n": n, "f": f, "inp": []}, "light": True, "events": events})
+    return traces
+
+
+def graph_fn_local(g, v, local):
+    """truth table of variable v of AEON network g over the variables `local` (None if v is not in g or depends on others)"""
+    from biodivine_aeon import AsynchronousGraph
+    if v not in g.variable_names():
+        return None
+    if g.get_update_function(v) is None:
+        return None
+    ag = AsynchronousGraph(g)
+    fb = ag.mk_update_function(v)
+    col = []
+    n = len(local)
+    for s in range(1 << n):
+        r = fb.r_restrict({nm: bool((s >> j) & 1) for j, nm in enumerate(local)})
+        col.append(1 if r.is_true() else 0 if r.is_false() else 9)
+    return col
+
+
+def _work_model(task: dict) -> str:
+    trs = record_model(task["path"], task["seed"], task["max_local"], task["subspaces"])
+    return "\n".join(json.dumps(t) for t in trs)
+
+
+def record_models(tasks: list[dict], outfile: str, procs: int = 16) -> dict:
+    from concurrent.futures import ProcessPoolExecutor
+    os.makedirs(os.path.dirname(outfile), exist_ok=True)
+    n = 0
+    skipped = []
+    with ProcessPoolExecutor(max_workers=procs) as ex, open(outfile, "w") as f:
+        for blob in ex.map(_work_model, tasks, chunksize=1):
+            for ln in blob.splitlines():
+                if not ln.strip():
+                    continue
+                if ln.startswith('{"skipped"'):
+                    skipped.append(json.loads(ln))
+                    continue
+                f.write(ln + "\n")
+                n += 1
+    return {"traces": n, "skipped": skipped}
 
 
 def _work(task: dict) -> str:
